@@ -142,6 +142,7 @@ FIX_COMMITS = [
     'ccd6ccb fix: split a NEVRA at its last two dashes so that names may contain dashes',
     '83d41a2 fix: collect the users and groups to create in ordered sets',
     'f08ac32 fix: a file directly under the root has the directory "/", not "//"',
+    'e7d12cb fix: check the first character of each capability clause, not of the whole text',
 ]
 
 PROPS['C06'] = dict(
@@ -186,9 +187,19 @@ PROPS['C20'] = dict(
     explanation='Verbatim bodies of TryFrom<SystemTime> and TryFrom<chrono::DateTime<TZ>> for Timestamp: with x the instant in whole seconds since the epoch (floor), the result is Ok(Timestamp(x)) iff 0 <= x < 2^32, Err(Underflow) iff x < 0 (including sub-second instants before the epoch), Err(Overflow) iff x >= 2^32, over the full domain of both types and every time zone; monotone on accepted instants; no panic obligations left.',
 )
 
+PROPS['C19'] = dict(
+    level='proof', verus=['c19_caps'],
+    trusted_base=[A_TOOLS, A_EXTRACT,
+                  'A-STR: str::trim, split_whitespace, find([chars]), slicing at the found offset, chars(), starts_with(char), is_empty with their documented meaning, stated as contracts of helper functions the calls are rewritten to (R32); byte offsets and character indices are related by an abstract correspondence (offset 0 = character 0, the offset returned by find is a character boundary)',
+                  'validate_capset (the name-list check: split(","), to_uppercase, lookup in the CAPS table) is NOT under contract: its verdict is an uninterpreted predicate capset_ok of the name list'],
+    assumptions=['PARTIAL: decided is the clause structure - the text is accepted EXACTLY WHEN it is non-empty after trimming and every whitespace-separated clause (std split_whitespace) contains an operator, starts with a name list unless the CLAUSE starts with "=", has a name list validate_capset accepts and a suffix over {=,+,-,e,i,p} without adjacent operators; accepted text is kept verbatim (FileCaps::new / from_str); no panic, the debug_assert! in validate_suffix included (it is a proved assertion under the precondition its only caller establishes). NOT decided: which name lists are acceptable ("known capability names or all, case-insensitively")',
+                 'R33: debug_assert!(c) is rewritten to a proof obligation assert(c)',
+                 'the error message strings are replaced by an arbitrary String (R12)'],
+    explanation='Verbatim bodies of validate_caps_text, validate_suffix, FileCaps::new and FileCaps::from_str. validate_suffix(s) is Ok iff every character of s is an operator or a flag and no two operators are adjacent; validate_caps_text(s) is Ok iff trimmed(s) is non-empty and clause_ok holds for every token, where clause_ok is written from the statement (first operator position, name list before it unless the clause starts with "=", suffix after it). On the tree before e7d12cb both directions fail: "=e +p" was accepted and "cap_chown=e =p" rejected.',
+    technique='contract-based deductive verification (Verus) of the capability-text validators against a clause grammar written from the statement, std str functions under assumed contracts',
+)
 NOT_APPLICABLE = {
     'C12': 'about file-system effects (create_dir_all, File::create following symlinks, symlink): both verifiers treat std::fs as unsupported foreign calls and have no file-system model',
-    'C19': 'capability grammar is &str code (split_whitespace, find, chars, to_uppercase): same two obstacles as C13',
 }
 # properties not yet wired up are listed as not applicable until their check exists (kept current)
 for _pid, _why in {
